@@ -237,7 +237,7 @@ class Stop(Exception):
 PROFILES = {
     # weights of op kinds
     "balanced": {"ncid_new": 10, "ncid_pair_desc": 3, "ncid_repeat": 6, "retire": 8, "change": 7, "drain": 1, "switch": 4,
-                 "ping": 4, "ping_all": 1, "ping_retired": 1, "ack": 7, "timer": 2, "settle": 1},
+                 "ping": 4, "ping_all": 1, "ping_retired": 1, "ack": 7, "timer": 2, "settle": 1, "burst": 2},
     "ncid": {"ncid_new": 14, "ncid_pair_desc": 5, "ncid_repeat": 10, "retire": 1, "change": 8, "drain": 2, "switch": 2,
              "ping": 1, "ping_all": 0, "ping_retired": 0, "ack": 5, "timer": 1, "settle": 1},
     "retire": {"ncid_new": 2, "ncid_pair_desc": 0, "ncid_repeat": 1, "retire": 14, "change": 2, "drain": 0, "switch": 6,
@@ -247,7 +247,7 @@ PROFILES = {
     "blocked": {"ncid_new": 0, "ncid_pair_desc": 0, "ncid_repeat": 0, "retire": 0, "change": 0, "drain": 0, "switch": 0,
                 "ping": 1, "ping_all": 0, "ping_retired": 0, "ack": 2, "timer": 1, "settle": 3, "blocked_op": 16},
     "loss": {"ncid_new": 8, "ncid_pair_desc": 2, "ncid_repeat": 3, "retire": 6, "change": 10, "drain": 1, "switch": 3,
-             "ping": 2, "ping_all": 0, "ping_retired": 0, "ack": 12, "timer": 5, "settle": 3},
+             "ping": 2, "ping_all": 0, "ping_retired": 0, "ack": 12, "timer": 5, "settle": 3, "burst": 4},
 }
 
 
@@ -645,6 +645,46 @@ class Hist:
                 break
             self._ping(s, "ping_all")
 
+    def op_burst(self, order_seed):
+        """Several datagrams arrive back to back (one receive batch): E processes all of them before it gets to transmit.
+        First P's acknowledgements (withheld carriers excepted, which is what makes E declare them lost), then one PING
+        to every ID that E issued and P did not retire — including IDs whose announcement E has just declared lost."""
+        from .. import frames as F
+
+        dgs = []
+        p = self.ack_payload()
+        if p:
+            dgs.append(self.pup.packet("1rtt", p, dcid=self.e_cid[self.p_default]))
+        valid = sorted(set(self.e_cid) - self.e_retired)
+        random.Random(order_seed).shuffle(valid)
+        sent = {}
+        for s_ in valid:
+            pn = self.pup.next_pn["A"]
+            dgs.append(self.pup.packet("1rtt", F.f_ping(), dcid=self.e_cid[s_]))
+            sent[pn] = s_
+        self.pup.now += 0.001
+        for pn, s_ in sent.items():
+            self.p_unacked[pn] = (self.pup.now, s_)
+        for dg in dgs:
+            self.api(self.pup.call, "receive_datagram", dg, self.pup.addr, now=self.pup.now)
+        self.on_views(self.api(self.pup.transmit))
+        t_end = self.pup.now + self.pto()
+        self.fire_due()
+        while any(pn in self.p_unacked for pn in sent) and self.closed is None and self.pup.terminated is None:
+            v = self.api(self.pup.fire_timer, max(0.0, t_end - self.pup.now))
+            if v is None:
+                break
+            self.on_views(v)
+        self.trace.append("burst")
+        self.res.count("c5_bursts")
+        for pn, s_ in sent.items():
+            self.res.count("c5_pings_checked")
+            if self.strict and self.closed is None and pn in self.p_unacked:
+                self.violation(
+                    "accept:ping-to-issued-id-not-acknowledged",
+                    "PING pn=%d addressed to E's ID #%s (issued, not retired by P) in a batch of %d datagrams was not acknowledged within 1 PTO" % (pn, s_, len(dgs)),
+                )
+
     def op_ping_retired(self, to):
         from .. import frames as F
 
@@ -912,9 +952,16 @@ class Hist:
                     ops.append(["change"])
             if rng.random() < 0.25:
                 ops.append(["change"])
+            if rng.random() < 0.35:
+                # P acknowledges what it may (withheld carriers of NEW_/RETIRE_CONNECTION_ID excepted, so that E declares
+                # them lost while it cannot retransmit) and then addresses every ID it knows, including the ones whose
+                # announcement E now believes lost: they were issued and not retired, E must keep accepting them
+                ops += [["ping", None], ["ping", None], ["ping", None], ["burst", rng.randrange(1 << 30)], ["ping", None], ["ping", None], ["ping", None], ["burst", rng.randrange(1 << 30)]]
             if rng.random() < 0.5:
                 ops.append(["settle"])
             return ops
+        if kind == "burst":
+            return [["burst", rng.randrange(1 << 30)]]
         if kind == "ack":
             return [["ack", rng.random() < 0.5]]
         if kind == "timer":
